@@ -61,6 +61,14 @@ static int nv_expired(void)
 	return nv_deadline_hit;
 }
 
+/* deadline test without the sampling counter (for processes that call it only a few times) */
+static int nv_expired_now(void)
+{
+	if (!nv_deadline_hit && nv_elapsed() > nv_deadline_s)
+		nv_deadline_hit = 1;
+	return nv_deadline_hit;
+}
+
 static void nv_init(int argc, char **argv)
 {
 	const char *o = nv_arg(argc, argv, "out", NULL);
